@@ -97,6 +97,8 @@ fn handle(ws: &[&str]) -> String {
         #[cfg(feature = "full")]
         ["eseq", exp, dir, api, key, msgs] => enc::eseq(exp, dir, api, key, msgs),
         #[cfg(feature = "full")]
+        ["eseqf", exp, dir, key, frames] => enc::eseqf(exp, dir, key, frames),
+        #[cfg(feature = "full")]
         ["cipherlaw", exp, key, data] => enc::cipherlaw(exp, key, data),
         #[cfg(feature = "full")]
         ["coll", v, dir, hex] => match unhex(hex) { Some(b) => gen_collective::coll(v.parse().unwrap_or(0), dir, &b).unwrap_or_else(|| "bad-op".into()), None => "bad-op".into() },
